@@ -397,7 +397,10 @@ class Threaded(ThreadedMixin, PipeScenario):
         names = [parse(s)[0] for s in self.params["nodes"]]
         if any(nm in BUFFERING or (nm == "partition" and needs_clock(self.params["nodes"])) for nm in names):
             return
-        handling = _own_outputs(self, x)
+        # in threaded mode the 'emit' log entry is written when the thread *calls* emit, the push happens
+        # later on the loop (and two threads interleave): the outputs of x's own push are the batches
+        # whose newest member is x
+        handling = [b for b in self.delivered() if flat(b) and flat(b)[-1] == x]
         fin = [b for b in self.finished()]
         if any(b not in fin for b in handling):
             self.violations.append(Violation("emit-before-consumer", self.site(), "consumer-still-handling",
@@ -440,6 +443,8 @@ def plan(ctx):   # noqa: F811
     for nd in ("", "map", "slice", "buffer:1", "buffer:1,slice", "buffer:2,map", "map_async:1", "sliding_window:2", "rate_limit:1", "partition:2:1"):
         for kind in (("future", "native", "gen", "sync") if (T or nd in ("", "buffer:1,slice")) else ("future", "sync")):
             jobs.append((("threaded", nd, kind, 2, 1), 1))
-        if nd not in ("map_async:1", "partition:2:1") or T:
+        if nd == "":
+            jobs.append((("threaded", nd, "future", 2, 2), 1))
+        elif nd not in ("map_async:1", "partition:2:1") or T:
             jobs.append((("threaded", nd, "future", 2 if nd not in ("map_async:1", "partition:2:1") else 1, 2), 1 if (T and nd not in ("map_async:1", "partition:2:1")) else 0))
     return jobs
